@@ -42,7 +42,7 @@ try:
         r = subprocess.run(['./check', c, '--tier', a.tier], cwd='/verif', env=e, capture_output=True, text=True)
         lines = [l for l in r.stdout.split('\n') if l.startswith('VIOLATION') or l.strip().startswith('key=')]
         meta['checks'][c] = dict(rc=r.returncode, caught=('VIOLATION' in r.stdout), violation_keys=[l.strip() for l in lines if 'key=' in l][:6],
-                                 wall_s=round(time.time() - t0, 1), stderr_tail=r.stderr[-300:] if r.returncode not in (0, 1) else '')
+                                 wall_s=round(time.time() - t0, 1), stderr_tail=r.stderr[-300:] if (r.returncode not in (0, 1) or 'VIOLATION' not in r.stdout and r.returncode != 0) else '')
     shutil.rmtree(f'/tmp/hv_replays_{a.seed}', ignore_errors=True)
 finally:
     subprocess.run(['git', '-C', '/repo', 'worktree', 'remove', '--force', wt], capture_output=True)
